@@ -65,7 +65,8 @@ let prop_lines = List.map (fun s -> bytes_of_hex s)
 (* why a case of this kind can go wrong (names the call site in the finding key) *)
 let site_of (c : string) : string =
   match split_blank c with
-  | ("ammo" | "pfx" | "trunc") :: fmt :: file :: _ ->
+  | "cfghdr" :: _ -> "config-headers-DecodeHeader"
+  | ("ammo" | "pfx" | "trunc" | "badhdr") :: fmt :: file :: _ ->
       (match fmt with
        | "uripost" | "raw" -> "size-field-used-as-allocation-length"
        | "json" -> "jsonline-decoder"
@@ -87,7 +88,28 @@ let rec predict_inner (c : string) (obs : string) : string * string * bool =
   | ["ammo"; fmt; file] ->
       let (p, _) = decode_bytes fmt (bytes_of_hex file) in
       safe p
-  | (("pfx" | "trunc") as kind) :: fmt :: file :: ngood :: toks ->
+  | ["cfghdr"; h] ->
+      let hb = bytes_of_hex h in
+      let p = (match decode_header hb with
+        | Inr _ -> "newerr"
+        | Inl (k, v) ->
+            let e = { e_method = gET; e_url = [n_of_int 47; n_of_int 97]; e_body = []; e_tag = [];
+                      e_headers = header_set k v [] } in
+            print_run bld_entry 2 [SDeliver e; SDeliver e]) in
+      (* specification, independent of decode_header: "[<only white space>:...]" has no key *)
+      let blank_key =
+        (match hb with
+         | c :: r when int_of_byte c = 91 ->
+             let ((k, _), found) = cut (n_of_int 58) r in
+             found && trim k = []
+         | _ -> false) in
+      let st = status_of obs in
+      let v =
+        if bad_status st then "BAD:" ^ site_of c ^ " outcome " ^ st
+        else if blank_key && st <> "newerr" then "BAD:blank-header-key-not-rejected outcome " ^ st
+        else "ok" in
+      (p, v, true)
+  | (("pfx" | "trunc" | "badhdr") as kind) :: fmt :: file :: ngood :: toks ->
       let toks = List.filter (fun t -> t <> "") toks in
       let fileb = bytes_of_hex file in
       let (p, _) = decode_bytes fmt fileb in
@@ -131,9 +153,10 @@ let rec predict_inner (c : string) (obs : string) : string * string * bool =
         let v =
           if bad_status st then "BAD:" ^ site_of c ^ " outcome " ^ st
           else if not (is_prefix want got) then "BAD:prefix-altered expected " ^ String.concat " " want
-          else if kind = "trunc" && not (got = want && (st = "err" || st = "newerr")) then
-            (* a truncated entry must be rejected with an error, after the entries before it *)
-            "BAD:truncated-entry-not-rejected outcome " ^ st ^ " after " ^ string_of_int (List.length got)
+          else if kind <> "pfx" && not (got = want && (st = "err" || st = "newerr")) then
+            (* a truncated entry / a header line without a key must be rejected with an error, after
+               the entries before it *)
+            "BAD:" ^ (if kind = "trunc" then "truncated-entry" else "blank-header-key") ^ "-not-rejected outcome " ^ st ^ " after " ^ string_of_int (List.length got)
             ^ " deliveries (expected " ^ string_of_int (List.length want) ^ " then an error)"
           else "ok" in
         (p, v, true)
